@@ -60,6 +60,8 @@ pub struct SessCfg {
     pub frozen_clock: bool,
     /// which order of FsOptions builder calls the first mount uses (rotates with every epoch)
     pub opt_order: u8,
+    /// C09 on random histories: fail the k-th device call (kinds mask) of the op with this index; the session ends there
+    pub fault: Option<(usize, u64, u8)>,
 }
 
 impl SessCfg {
@@ -81,6 +83,7 @@ impl SessCfg {
             trace: false,
             frozen_clock: false,
             opt_order: 0,
+            fault: None,
         }
     }
     pub fn on(&self, p: &str) -> bool {
@@ -128,6 +131,8 @@ pub struct Counters {
     pub op_outcomes: BTreeMap<(String, &'static str), u64>,
     pub total_dev_writes: u64,
     pub readonly_exceptions: u64,
+    pub faults_fired: u64,
+    pub faults_exempt: u64,
 }
 
 pub struct Outcome {
@@ -836,8 +841,52 @@ fn step<'f>(s: &mut Sess, fs: &'f Fs, hs: &mut Vec<Option<H<'f>>>, op: &Op) {
     s.dev.begin_call();
     s.clock.begin_call();
     s.counters.api_calls += 1;
+    let faulted = match s.cfg.fault {
+        Some((at, k, kinds)) if at == s.pc => {
+            s.dev.set_fault(Some(crate::dev::FaultPlan { k, kinds, code: 0xF000 + (k as u32 & 0xFFF) }));
+            s.dev.set_budget(Some(2_000_000));
+            Some(k)
+        }
+        _ => None,
+    };
     let model_ro = &s.model;
     let r = catch_unwind(AssertUnwindSafe(|| exec(fs, hs, op, op_id, model_ro)));
+    if let Some(k) = faulted {
+        let fired = s.dev.fired();
+        let tripped = s.dev.tripped();
+        s.dev.set_fault(None);
+        s.dev.set_budget(Some(budget_for(s)));
+        if let Some(f) = fired {
+            // the history ends here: after a storage error nothing further is specified
+            s.exhausted = true;
+            s.counters.faults_fired += 1;
+            let what = format!("{}: device {} #{} of the call failed (offset {})", op.show(), f.kind.name(), k, f.off);
+            match &r {
+                Err(_) => {
+                    let (cls, full) = take_panic();
+                    if tripped {
+                        s.violate("C09", "hang", op, f.kind.name(), format!("{}: the call did not terminate within the device-call budget", what));
+                    } else {
+                        s.violate("C09", "panic", op, &cls, format!("{}: the call panicked: {}", what, full));
+                    }
+                }
+                Ok(o) => {
+                    let want = 0xF000 + (k as u32 & 0xFFF);
+                    if f.in_drop {
+                        s.counters.faults_exempt += 1;
+                    } else if o.ek == Some(EK::Io) && o.io_code == Some(want) {
+                    } else if o.ek.is_none() {
+                        s.violate("C09", "swallowed", op, f.kind.name(), format!("{}: the call returned Ok", what));
+                    } else {
+                        s.violate("C09", "masked", op, &format!("{}-{}", f.kind.name(), o.ek.map_or("?", |e| e.name())), format!("{}: the call returned {:?} (io code {:?})", what, o.ek.map(|e| e.name()), o.io_code));
+                    }
+                }
+            }
+            // destructors must still terminate
+            let _ = s.dev.take_log();
+            return;
+        }
+    }
     let log = s.dev.take_log();
     s.last_clock = s.clock.take_log();
     s.counters.dev_events += log.len() as u64;
